@@ -49,11 +49,20 @@ def plan(tier, seed):
                     tseq = [t for t in tseq if t > 0] + [50.0]
                 g.append({"part": "rd", "xtal": name, "S": S, "stat": stat, "cutoff": cutoff, "T": tseq})
                 n += 1
+            # an explicit cutoff of exactly 0 on a crystal pinned by a weak on-site spring (no zero modes, but modes of a few 1e-3 THz,
+            # below the default cutoff of 0.01 THz): every mode enters
+            for stat in ("quantum", "classical"):
+                g.append({"part": "rd", "xtal": name, "S": S, "stat": stat, "cutoff": "zero-pinned", "T": [300.0]})
+                n += 1
             groups.append(g)
     for name in xts:
         g = []
         for mesh, fwin in itertools.product(([2, 2, 2], [3, 2, 1], [2, 2, 3]) if tier == "quick" else ([2, 2, 2], [3, 2, 1], [2, 2, 3], [4, 4, 4], [1, 1, 5], [3, 3, 3]), (None, "window")):
             g.append({"part": "tdm", "xtal": name, "mesh": mesh, "fwin": fwin})
+            # the iterated mesh (use_iter_mesh=True), on the stable crystal and on one with imaginary modes (which never enter)
+            g.append({"part": "tdm", "xtal": name, "mesh": mesh, "fwin": fwin, "iter": True})
+            g.append({"part": "tdm", "xtal": name, "mesh": mesh, "fwin": fwin, "iter": True, "unstable": True})
+            g.append({"part": "tdm", "xtal": name, "mesh": mesh, "fwin": fwin, "unstable": True})
         groups.append(g)
     from checks.c17 import CALCS
 
@@ -99,6 +108,10 @@ def run_rd(case, seed, st):
     sc = ph.supercell
     masses = np.asarray(sc.masses)
     ns = len(sc)
+    if case["cutoff"] == "zero-pinned":
+        fc = fc.copy()
+        for i in range(ns):
+            fc[i, i] += np.eye(3) * masses[i] * (0.006 / U.VaspToTHz) ** 2
     tag = "%s/cutoff=%s" % (case["stat"], case["cutoff"])
     # frequencies of the supercell (oracle) to place a cutoff between modes
     m3 = np.repeat(masses, 3)
@@ -113,6 +126,11 @@ def run_rd(case, seed, st):
         k = ks[len(ks) // 3]
         cutoff = float((fall[k] + fall[k + 1]) / 2)
         cut_val = cutoff
+    if case["cutoff"] == "zero-pinned":
+        cutoff = 0.0
+        cut_val = 0.0
+        if not (0 < fall[0] and fall[2] < 0.01):
+            raise RuntimeError("pinned model lost its purpose: lowest modes %r" % fall[:4])
     try:
         rd = RandomDisplacements(ph.supercell, ph.primitive, np.array(fc, dtype="double", order="C"), dist_func=case["stat"], cutoff_frequency=cutoff, factor=U.VaspToTHz, use_openmp=True)
     except Exception as e:
@@ -173,11 +191,30 @@ def run_tdm(case, seed, st):
         st["ph"].force_constants = st["fc"]
     ph = st["ph"]
     mesh = case["mesh"]
-    tag = "window" if case["fwin"] else "all"
+    tag = ("window" if case["fwin"] else "all") + ("/iter-mesh" if case.get("iter") else "") + ("/unstable" if case.get("unstable") else "")
+    want_unstable = bool(case.get("unstable"))
+    if st.get("unstable", False) != want_unstable:
+        fcu = st["fc"].copy()
+        if want_unstable:
+            # a negative on-site term: the lowest third of the spectrum turns imaginary
+            ph.force_constants = st["fc"]
+            ph.run_mesh(mesh, is_mesh_symmetry=False, is_gamma_center=True)
+            f0 = np.sort(np.array(ph.get_mesh_dict()["frequencies"]).ravel())
+            fcut = f0[len(f0) // 3] + 0.37 * (f0[len(f0) // 3 + 1] - f0[len(f0) // 3])
+            ms = np.asarray(ph.supercell.masses)
+            for i in range(len(ms)):
+                fcu[i, i] -= np.eye(3) * ms.min() * (fcut / U.VaspToTHz) ** 2
+        ph.force_constants = fcu
+        st["unstable"] = want_unstable
+        st["fc_now"] = fcu
     ph.run_mesh(mesh, with_eigenvectors=True, is_mesh_symmetry=False, is_gamma_center=True)
     md = ph.get_mesh_dict()
     f, ev = np.array(md["frequencies"]), np.array(md["eigenvectors"])
+    if want_unstable and not ((f < -1e-3).any() and (f > 1e-3).any()):
+        raise RuntimeError("unstable model lost its purpose: frequencies %r" % np.sort(f.ravel())[[0, -1]])
     fmin, fmax = (1e-3, None) if not case["fwin"] else (0.3 * f.max(), 0.8 * f.max())
+    if case.get("iter"):
+        ph.init_mesh(mesh, with_eigenvectors=True, is_mesh_symmetry=False, is_gamma_center=True, use_iter_mesh=True)
     temps = [0.0, 100.0, 900.0]
     try:
         ph.run_thermal_displacement_matrices(temperatures=temps, freq_min=fmin, freq_max=fmax)
@@ -252,7 +289,7 @@ def run_tdm(case, seed, st):
         return dict(ok=False, sig="C19/tdm/cif-transform/" + tag, resid=float(e), nontrivial=True,
                     msg="%s: CIF matrices differ from N^-1 A^-1 U A^-T N^-1 by %.3g (rel)" % (case["xtal"], e))
     # a mesh commensurate with the supercell reproduces the diagonal blocks of the supercell covariance
-    if not case["fwin"] and list(mesh) == [int(x) for x in np.diag(np.array(ph.supercell_matrix))] and (np.diag(np.diag(ph.supercell_matrix)) == np.array(ph.supercell_matrix)).all():
+    if not case["fwin"] and not want_unstable and list(mesh) == [int(x) for x in np.diag(np.array(ph.supercell_matrix))] and (np.diag(np.diag(ph.supercell_matrix)) == np.array(ph.supercell_matrix)).all():
         cov = TH.supercell_covariance(st["fc"], np.asarray(ph.supercell.masses), 100.0, U.VaspToTHz, 1e-3, U.Hbar, U.EV, U.AMU, U.Kb)
         p2s = np.asarray(ph.primitive.p2s_map)
         for j, sj in enumerate(p2s):
